@@ -38,6 +38,11 @@ pub const PROGRAMS: &[&str] = &[
     "",
     "2 plus 3",
     "x = 2 plus 3 ; x",
+    // programs that fail to parse, shallow and deeply nested
+    "x = [y, (z]",
+    "((((((((((((((((((((((((((((((((((((((((1",
+    "f(g(h([{1 : (2 + ",
+    "((((((((((((((((((((((((((((((((((((((((1))))))))))))))))))))))))))))))))))))))))",
 ];
 
 /// programs used in the histories that contain a registration
@@ -314,6 +319,7 @@ impl Prop for C16 {
             stages: vec![
                 Stage { name: "fresh".into(), len: pairs, chunk: 1, timeout: Duration::from_secs(60), what: "every single operation and every ordered pair of operations as the first engine calls of a fresh process".into() },
                 Stage { name: "registration".into(), len: reg_histories().len() as u64, chunk: 1, timeout: Duration::from_secs(60), what: "histories of <= 4 steps with one register_infix_op at every position, each in a fresh process (a lexeme probed before it becomes an operator must be an operator afterwards)".into() },
+                Stage { name: "long".into(), len: (PROGRAMS.len() * PROGRAMS.len()) as u64, chunk: 40, timeout: Duration::from_secs(600), what: "for every ordered pair (p, q): 100 repetitions of parse(p) / execute(p) followed by every operation on q (capacity / accumulation effects; single long histories, not exhaustive)".into() },
                 Stage { name: "histories".into(), len: n, chunk: (n / 64).max(500), timeout: Duration::from_secs(1800), what: format!("every history of <= {} operations, in process, no de-duplication", depth(tier)) },
             ],
             rule: format!(
@@ -346,6 +352,22 @@ impl Prop for C16 {
             }
             return;
         }
+        if stage == 2 {
+            for i in a..b {
+                out.idx = Some(i);
+                let (p, q) = ((i as usize) / PROGRAMS.len(), (i as usize) % PROGRAMS.len());
+                let mut ops = Vec::new();
+                for r in 0..100 {
+                    ops.push((p * KINDS.len() + (r % 2)) as u64);
+                }
+                for k in 0..KINDS.len() {
+                    ops.push((q * KINDS.len() + k) as u64);
+                }
+                run_history(&ops, &world, &model_asts, "long", out);
+                out.count("states", 1);
+            }
+            return;
+        }
         if stage == 1 {
             let hs = reg_histories();
             for i in a..b {
@@ -368,6 +390,9 @@ impl Prop for C16 {
     }
     fn case_text(&self, tier: Tier, stage: usize, i: u64) -> String {
         let n = n_ops();
+        if stage == 2 {
+            return format!("100 x {:?} then {:?}", PROGRAMS[(i as usize) / PROGRAMS.len()], PROGRAMS[(i as usize) % PROGRAMS.len()]);
+        }
         if stage == 1 {
             return reg_histories()[i as usize].iter().map(|o| op_text(*o)).collect::<Vec<_>>().join(" ; ");
         }
